@@ -45,7 +45,7 @@ THEOREMS = [
         # Props/C11b: the binary OUTPUT4 reader, every variant
         "op4_variant_file_roundtrip skip_positions_variants dir_matches_load_variants namelist_test_exact "
         "named_subset_is_filter_binary op4_cutoff_paths_agree op4_cutoff_irrelevant_enc op4_cutoff_irrelevant "
-        "op4_variant_dense_matrix mem_puts_iff dct_keeps_last "
+        "op4_variant_dense_matrix mem_puts_iff dct_keeps_last namelist_is_filter "
         # Props/C11c: ASCII OUTPUT4, on every text the reader accepts
         "skip_positions_ascii dir_is_iterated_skip dir_matches_load_ascii named_subset_is_filter_ascii "
         "dir_matches_load_ascii_written "
@@ -72,7 +72,9 @@ TRUSTED = [
 ]
 RULE = (
     "a case is one file built from a logical content: OUTPUT4 binary (byte order x 32/64-bit keys x single/double x "
-    "dense/bigmat/nonbigmat x real/complex, strings split at arbitrary places incl. adjacent and length-1 strings, "
+    "dense/bigmat/nonbigmat x real/complex, 1..7 matrices per file whose NAMES REPEAT anywhere (kaa, maa, kaa, pha, pha) in half of "
+    "the multi-matrix files, each read with every distinct name singly (string and one-element list) and a two-name list in list mode "
+    "(every occurrence, file order) and through read() (last occurrence); strings split at arbitrary places incl. adjacent and length-1 strings, "
     "zeros inside strings, negative row counts, strings on both sides of the 3000-value cut-off, row counts 65535 / "
     "65536 / 65537 with positive and negative NR), OUTPUT4 ASCII (E or D exponents, perline 1..5, widths 12..26, "
     "with/without 1P, lower case), OUTPUT2 (byte order x key width, matrix blocks single/double real/complex with split "
@@ -420,32 +422,59 @@ def _check_op4_file_(op4, path, mats, mtypes, conv):
     got = [dn, [tuple(map(int, s)) for s in ds], list(map(int, df)), list(map(int, dt))]
     if got != want:
         return ("dir", got, want)
-    # named subset = filter of the full read (exercises the skippers)
-    if len(mats) > 1:
-        pick = names[-1]
-        try:
-            with warnings.catch_warnings():
-                warnings.simplefilter("ignore")
-                sn, sm, sf, st = op4.load(path, namelist=[pick], into="list")
-        except Exception as e:  # noqa: BLE001
-            return ("namelist-raises", "%s: %s" % (type(e).__name__, e), "the matrices named %r" % pick)
-        idx = [i for i, n in enumerate(names) if n == pick]
-        if sn != [pick] * len(idx):
-            return ("namelist", sn, [pick] * len(idx))
-        for X, i in zip(sm, idx):
-            if _bits(np.asarray(X)) != _bits(exp[i][0]):
-                return ("namelist-values", pick, "matrix %d" % i)
+    # named subset = filter of the full read (exercises the skippers): every distinct name singly, as a string and as a
+    # one-element list, and a two-name list; list mode returns EVERY occurrence in file order, read() the last one
+    distinct = list(dict.fromkeys(names))
+    asks = []
+    for nm in distinct:
+        asks += [nm, [nm]]
+    if len(distinct) > 1:
+        asks.append([distinct[-1], distinct[0]])
+    if len(mats) > 1 or len(asks) > 2:
+        for ask in asks:
+            sel = [ask] if isinstance(ask, str) else ask
+            try:
+                with warnings.catch_warnings():
+                    warnings.simplefilter("ignore")
+                    sn, sm, sf, st = op4.load(path, namelist=ask, into="list")
+                    rd = op4.read(path, namelist=ask)
+            except Exception as e:  # noqa: BLE001
+                return ("namelist-raises", "%s: %s" % (type(e).__name__, e), "the matrices named %r" % (ask,))
+            idx = [i for i, n in enumerate(names) if n in sel]
+            if sn != [names[i] for i in idx] or [int(f) for f in sf] != [mats[i]["form"] for i in idx]:
+                return ("namelist", {"namelist": ask, "returned": sn}, [names[i] for i in idx])
+            for X, i in zip(sm, idx):
+                if _bits(np.asarray(X)) != _bits(exp[i][0]):
+                    return ("namelist-values", {"namelist": ask, "occurrence": i}, "matrix %d of the file" % i)
+            last = {}
+            for i in idx:
+                last[names[i]] = i
+            if list(rd) != list(last):
+                return ("namelist-read-keys", {"namelist": ask, "returned": list(rd)}, list(last))
+            for nm, i in last.items():
+                if _bits(np.asarray(rd[nm])) != _bits(exp[i][0]):
+                    return ("namelist-read-is-not-the-last-occurrence", {"namelist": ask, "name": nm}, "matrix %d of the file (the last %r)" % (i, nm))
     return None
 
 
 # -- OUTPUT4 binary variants --------------------------------------------------------------------
 
 
+def _repeat_names(rng, mats):
+    """matrix names that REPEAT anywhere in the file (kaa, maa, kaa, pha, baa, pha, pha): with probability 1/2 every
+    matrix after the first takes, with probability 0.45, the name of an earlier one (case kept as generated)"""
+    if len(mats) > 1 and rng.random() < 0.5:
+        for i in range(1, len(mats)):
+            if rng.random() < 0.45:
+                mats[i]["name"] = mats[rng.randrange(i)]["name"]
+    return mats
+
+
 def _gen_bin_case(rng, big=False):
     single = rng.random() < 0.5
-    n = 1 if big else rng.choice([1, 2, 3])
+    n = 1 if big else rng.choice([1, 2, 3, 3, 5, 7])
     return {"kind": "op4bin", "endian": rng.choice(["l", "b"]), "bit64": rng.random() < 0.4, "single": single,
-            "mats": [_gen_mat(rng, single, big=big) for _ in range(n)]}
+            "mats": _repeat_names(rng, [_gen_mat(rng, single, big=big) for _ in range(n)])}
 
 
 def _stored_bits(case, v):
@@ -532,13 +561,14 @@ def _gen_asc_case(rng):
     single = rng.random() < 0.5
     maxdig = width - 8  # sign, point, E+ddd
     mats = []
-    for _ in range(rng.choice([1, 2, 3])):
+    for _ in range(rng.choice([1, 2, 3, 3, 5, 7])):
         m = _gen_mat(rng, single)
         m["name"] = m["name"].upper() if rng.random() < 0.7 else m["name"]
         for _, strs in m["cols"]:
             for i, (r0, vals) in enumerate(strs):
                 strs[i] = (r0, [_gen_adec(rng, maxdig, True) for _ in vals])
         mats.append(m)
+    _repeat_names(rng, mats)
     return {"kind": "op4asc", "perline": perline, "width": width, "useD": rng.random() < 0.4,
             "lead1P": rng.random() < 0.6, "fmtD": rng.random() < 0.3, "lower": rng.random() < 0.2,
             "single": single, "mats": mats}
@@ -894,6 +924,11 @@ def correspondence(ctx):
                 else:
                     mt = [(3 if m["cplx"] else 1) + (0 if case["single"] else 1) for m in case["mats"]]
                     ctx.count("op4asc:" + ("D" if case["useD"] else "E"))
+                nms = [m["name"].lower() for m in case["mats"]]
+                if len(set(nms)) < len(nms):
+                    ctx.count("%s:repeated-names" % kind)
+                    if any(nms.count(x) >= 3 for x in nms):
+                        ctx.count("%s:name-three-times" % kind)
                 for m in case["mats"]:
                     ctx.count("%s:layout-%s" % (kind, m["lay"]))
                     if abs(m["rows"] - _ROWS4BIGMAT) <= 1:
@@ -942,6 +977,7 @@ def correspondence(ctx):
                                     "rd2:block-raises-index", "rd2:block-table", "rd2:block-matrix", "rd2:l-32", "rd2:l-64",
                                     "rd2:b-32", "rd2:b-64", "rd2:matrix-width-4-real", "rd2:matrix-width-4-complex",
                                     "rd2:matrix-width-8-real", "rd2:matrix-width-8-complex"]
+                                 + ["op4bin:repeated-names", "op4asc:repeated-names", "op4bin:name-three-times", "op4asc:name-three-times"]
                                  + ["stream:rd4:generated", "stream:rd4:sample-file", "stream:asc:sample-file", "stream:rd4:named-plain",
                                     "stream:rd4:named-prefix", "stream:rd4:named-upper", "stream:rd4:cutoff", "stream:rd4:malformed-truncated",
                                     "stream:rd4:malformed-content-string-too-long", "stream:rd4:malformed-content-one-value-beyond",
@@ -2085,8 +2121,12 @@ def _oracle_op4_subsets(op4, path, mats):
             warnings.simplefilter("ignore")
             fn, fm, ff, ft = op4.load(path, into="list")
             full = list(zip(fn, [_bits(np.asarray(x)) for x in fm], map(int, ff), map(int, ft)))
-            cands = [names[0], [names[-1]], [names[0][: max(1, len(names[0]) - 1)]], [names[-1] + "x"], [names[0].upper()],
-                     [names[0], names[-1]], list(reversed(names))]
+            distinct = list(dict.fromkeys(names))
+            cands = [names[0][: max(1, len(names[0]) - 1)], [names[-1] + "x"], [names[0].upper()], list(reversed(names))]
+            for nm in distinct:
+                cands += [nm, [nm]]
+            if len(distinct) > 1:
+                cands.append([distinct[-1], distinct[0]])
             for nl in cands:
                 sn, sm, sf, st = op4.load(path, namelist=nl, into="list")
                 got = list(zip(sn, [_bits(np.asarray(x)) for x in sm], map(int, sf), map(int, st)))
@@ -2100,6 +2140,9 @@ def _oracle_op4_subsets(op4, path, mats):
                 gd = [(k, _bits(np.asarray(v[0])), int(v[1]), int(v[2])) for k, v in d.items()]
                 if gd != list(wd.values()):
                     return ("dict-mode-is-not-last-occurrence", {"namelist": nl, "returned": [g[0] for g in gd]}, list(wd))
+                rd = op4.read(path, namelist=nl)
+                if [(k, _bits(np.asarray(v))) for k, v in rd.items()] != [(k, t[1]) for k, t in wd.items()]:
+                    return ("read-is-not-last-occurrence", {"namelist": nl, "returned": list(rd)}, list(wd))
             for cut in (1, 10 ** 9):
                 o = op4.OP4()
                 o._rowsCutoff = cut
@@ -2241,9 +2284,12 @@ def _oracle_ascii(ctx, sc):
     for it in range(ctx.pick(40, 400)):
         ctx.count("oracle:op4-ascii-written")
         n = rng.randint(1, 4)
+        n = rng.choice([1, 2, 3, 4, 5, 7])
         names = [_name(rng).lower() for _ in range(n)]
-        if n > 2 and rng.random() < 0.4:
-            names[-1] = names[0]
+        if n > 1 and rng.random() < 0.6:
+            for i in range(1, n):
+                if rng.random() < 0.45:
+                    names[i] = names[rng.randrange(i)]
         elif n > 1 and rng.random() < 0.4 and len(names[0]) < 8:
             names[-1] = names[0] + "x"
         mats = []
@@ -2265,11 +2311,17 @@ def _oracle_ascii(ctx, sc):
                 if not (dn == fn == names and [tuple(map(int, x)) for x in ds] == [m.shape for m in mats] == [x.shape for x in fm]
                         and list(map(int, df)) == list(map(int, ff)) and list(map(int, dt)) == list(map(int, ft))):
                     bad = ("dir-vs-load", [dn, [tuple(map(int, x)) for x in ds]], [fn, [x.shape for x in fm]])
-                for nl in ([names[-1]], [names[0][: max(1, len(names[0]) - 1)]], [names[0].upper()], [names[0], "zz9"]):
+                distinct = list(dict.fromkeys(names))
+                asks = [[names[0][: max(1, len(names[0]) - 1)]], [names[0].upper()], [names[0], "zz9"]]
+                for nm in distinct:
+                    asks += [nm, [nm]]
+                if len(distinct) > 1:
+                    asks.append([distinct[-1], distinct[0]])
+                for nl in asks:
                     if bad:
                         break
                     sn, sm, sf, st = op4.load(p, namelist=nl, into="list")
-                    want = [(a, _bits(np.asarray(x))) for a, x in zip(fn, fm) if a in nl]
+                    want = [(a, _bits(np.asarray(x))) for a, x in zip(fn, fm) if a in ([nl] if isinstance(nl, str) else nl)]
                     if [(a, _bits(np.asarray(x))) for a, x in zip(sn, sm)] != want:
                         bad = ("named-subset-is-not-the-filter", {"namelist": nl, "returned": sn}, [w[0] for w in want])
                     d = op4.load(p, namelist=nl, into="dct", justmatrix=True)
